@@ -248,7 +248,7 @@ def fuzz_phase(run, S):
         for t in sorted(toks):
             if 0 < len(t) < 40:
                 fh.write('"%s"\n' % "".join("\\x%02x" % c for c in t))
-    runs = int(os.environ.get("VERIF_FUZZ_RUNS", "300000"))
+    runs = int(os.environ.get("VERIF_FUZZ_RUNS", "2400000"))
     env = dict(os.environ)
     env.update(driver.SAN_ENV)
     env["ASAN_OPTIONS"] = env["ASAN_OPTIONS"] + ":quarantine_size_mb=8:detect_leaks=0"
